@@ -22,7 +22,11 @@ RULE = ("destructuring: every pattern shape of a structured family of depth <= 2
         "syntax-quote: all templates of one collection with <= 2 elements over a 14-element vocabulary "
         "(core / interned / aliased / referred / special / undefined / & / .member symbols, two auto-gensyms, "
         "atoms, unquote, unquote-splice) in each of list/vector/set/map and 4 namespace states, PRNG "
-        "templates of depth 2 (thorough: 3); hygiene: every vocabulary symbol x 2 use-site namespaces x "
+        "templates of depth 2 (thorough: 3), ill-formed uses included (splice of a non-seqable value: "
+        "TypeError; map literal with an odd number of elements after splicing: IndexError; the value is "
+        "realised completely, so an error deferred by the lazy concat counts as raised) but EXCLUDING PRNG "
+        "templates that contain ill-formed uses of both classes at once (which of the two errors surfaces "
+        "first depends on the laziness of concat, not modelled); hygiene: every vocabulary symbol x 2 use-site namespaces x "
         "shadowing locals.  A case is non-trivial when it binds at least two names or has a hole / a symbol.")
 TRUSTED = [
     "nth / nthnext / get / seq? / next / first / apply hash-map / -collect-keyword-args are the oracle: "
@@ -42,6 +46,11 @@ ASSUMPTIONS = [
     "pairwise distinct binders and closed expressions, for which the order is immaterial)",
     "nested syntax-quotes, metadata on template symbols and reader conditionals inside templates are not modelled",
     "patterns whose :as name is re-bound inside the same pattern are outside the guard (alias_ok)",
+    "the syntax-quote evaluator model is strict, basilisp's concat is lazy: a list template `(a ~@x) with a "
+    "non-seqable x evaluates to a lazy seq that raises TypeError only when walked; the correspondence realises "
+    "the whole value and counts that as raised.  In a template with ill-formed uses of two different classes "
+    "(non-seqable splice AND odd map literal) both sides raise but possibly different classes "
+    "(`[(1 ~@5) {1 ~@nil}]`: IndexError, model TypeError): such templates are outside what is compared",
 ]
 EXHAUSTIVE = {"quick": False, "thorough": False}
 HARD_TIMEOUT = 60
@@ -532,7 +541,12 @@ def sq_cases(tier, rng):
     maxd = 2 if tier == "quick" else 3
     for i in range(nrand):
         cfg = cfgs[i % 4]
-        t = rand_tmpl(rng, cfg, rng.randint(2, maxd))
+        for _ in range(50):
+            t = rand_tmpl(rng, cfg, rng.randint(2, maxd))
+            if not mixed_error_sources(t, HOLE_VALUES):
+                break
+        else:
+            t = {"v": []}
         yield sq_case(cfg, t, "rand")
     # F-09d: an empty list template
     yield from f09d_witnesses()
@@ -556,14 +570,66 @@ def rand_tmpl(rng, cfg, depth):
             else:
                 elems.append(rng.choice(leaves))
         if kind == "m" and len(elems) % 2:
+            # the READER wants an even number of forms in a map literal (splices count as one form each).
+            # Whether the number of elements AFTER splicing is even is not constrained here: an odd one is
+            # an ill-formed use that raises IndexError in (apply hash-map ...), which the model predicts.
             elems.append(T_a(0))
-        if kind == "m":
-            # splices in a map literal must come in pairs of forms
-            if any("sp" in e for e in elems) and len(elems) % 2:
-                continue
         if valid_coll(kind, elems):
             return wrap(kind, elems)
     return {"v": []}
+
+
+def seqable_datum(v):
+    """Can ~@ splice this hole value?  nil, strings and collections yes; numbers, keywords, symbols no."""
+    return v is None or (isinstance(v, dict) and any(k in v for k in ("s", "l", "v", "set", "m")))
+
+
+def datum_len(v):
+    if v is None:
+        return 0
+    for k in ("s", "l", "v", "set", "m"):
+        if k in v:
+            return len(v[k])
+    raise ValueError(v)
+
+
+def error_sources(t, sg):
+    """The run-time error classes a template can raise when its expansion is evaluated and the value is
+    realised: TypeError = some ~@ splices a non-seqable value; IndexError = some map literal (all of whose
+    splices are seqable) has an odd number of elements after splicing."""
+    out = set()
+
+    def walk(t):
+        if "sp" in t:
+            if not seqable_datum(sg[t["sp"]]):
+                out.add("TypeError")
+            return
+        for key in ("l", "v", "set"):
+            if key in t:
+                for e in t[key]:
+                    walk(e)
+                return
+        if "m" in t:
+            elems = [x for kv in t["m"] for x in kv]
+            for e in elems:
+                walk(e)
+            sps = [sg[e["sp"]] for e in elems if "sp" in e]
+            if all(seqable_datum(v) for v in sps):
+                n = sum(datum_len(sg[e["sp"]]) if "sp" in e else 1 for e in elems)
+                if n % 2:
+                    out.add("IndexError")
+    walk(t)
+    return out
+
+
+def mixed_error_sources(t, sg):
+    """Two ill-formed uses of DIFFERENT error classes in one template.  `concat` is lazy: in
+    `[(1 ~@5) {1 ~@nil}]` the list `(1 ~@5)` is a lazy seq whose TypeError is deferred until somebody walks
+    it, so the IndexError of the map comes first; the model's evaluator works on realised collections
+    (TRUSTED) and raises the TypeError of the list first.  Both raise; which class surfaces is not modelled,
+    so such templates are not generated.  (One error source, or several of one class, give that class
+    whatever the timing: the worker realises the whole value inside the same try.)"""
+    return len(error_sources(t, sg)) > 1
 
 
 def f09d_witnesses():
